@@ -14,6 +14,7 @@ CONSTANTS
 VARIABLES kind, sc, done
 vars == <<kind, sc, done>>
 
+FortranShapes == {<<2>>, <<1>>, <<1, 3>>, <<3, 1>>, <<2, 3>>, <<1, 3, 5>>, <<3, 5, 1>>, <<1, 2, 2>>, <<1, 1, 4>>, <<2, 1, 3>>, <<1, 3, 1>>}
 EdgeBytes == {9, 10, 12, 13, 32, 0, 255}
 
 Init ==
@@ -28,7 +29,11 @@ Init ==
        \* may not treat any byte of the data section as anything but data
        \/ kind = "reader" /\ sc \in [t : ReaderTypes, order : {"<", ">"}, version : {1},
                                       sp : {CHOOSE x \in ReaderSpellings : TRUE}, rep : {1}, edge : EdgeBytes]
-       \/ kind = "reject" /\ sc \in [descr : Unsupported, fortran : {FALSE}] \cup [descr : {"<f8", "<i4"}, fortran : {TRUE}]
+       \* files that are valid numpy output but outside what the reader supports: other dtypes, and Fortran order for EVERY
+       \* shape - also those where a lone non-trivial axis (or only leading/trailing axes of length one) might tempt a reader
+       \* to treat the two orders as the same
+       \/ kind = "reject" /\ sc \in [descr : Unsupported, fortran : {FALSE}, shape : {<<2>>}]
+                                     \cup [descr : {"<f8", "<i4", "|u1"}, fortran : {TRUE}, shape : FortranShapes]
        \/ kind = "damage" /\ sc \in DamageCases
 
 Observe == ~done /\ done' = TRUE /\ UNCHANGED <<kind, sc>>
@@ -93,8 +98,12 @@ HeaderAligned ==
 DamageFile ==
     LET dict == SpelledDict("<" \o sc.type, FALSE, sc.shape,
                             [quote |-> "'", comma |-> ", ", colon |-> ": ", trailing |-> TRUE, order |-> <<1, 2, 3>>, tupleComma |-> FALSE])
-    IN  [version |-> sc.version, header |-> NumpyHeader(sc.version, dict), shape |-> sc.shape,
+    IN  [version |-> sc.version, header |-> NumpyHeaderGap(sc.version, dict, sc.gap), shape |-> sc.shape, gap |-> sc.gap,
          itemsize |-> ItemSize(sc.type), type |-> sc.type, elements |-> Elements(sc.shape)]
+
+GapAsAnnounced ==
+    kind = "damage" =>
+        LET f == DamageFile IN (DataOffset(f.version, Len(f.header)) + f.gap) % Align = 0 /\ EndsWithNewline(f.header)
 
 DamageOk ==
     kind = "damage" =>
@@ -111,7 +120,8 @@ Emit ==
                                             file |-> ReaderFile]))
           [] kind = "reject" ->
                 PrintT("REPLAY " \o ToJson([family |-> "npy", kind |-> "reject", descr |-> sc.descr, fortran |-> sc.fortran,
-                    header |-> NumpyHeader(1, SpelledDict(sc.descr, sc.fortran, <<2>>,
+                    shape |-> sc.shape,
+                    header |-> NumpyHeader(1, SpelledDict(sc.descr, sc.fortran, sc.shape,
                         [quote |-> "'", comma |-> ", ", colon |-> ": ", trailing |-> TRUE, order |-> <<1, 2, 3>>, tupleComma |-> FALSE]))]))
           [] kind = "damage" ->
                 PrintT("REPLAY " \o ToJson([family |-> "npy", kind |-> "damage", file |-> DamageFile, max_ext |-> 16,
